@@ -155,7 +155,8 @@ def fuzz_campaign(seed, runs, jobs=16):
             envv["PYTHONPATH"] = os.pathsep.join([core.ROOT, os.environ.get("VERIF_REPO", "/repo"), deps]) + core.COVPATH
             procs.append((out, subprocess.Popen(
                 [sys.executable, "-m", "harness.fuzz_c01", out, "-runs=%d" % runs, "-seed=%d" % (seed * 100 + k + 1),
-                 "-max_len=2048", "-len_control=0", corpus], cwd=core.ROOT, env=envv, stdout=subprocess.DEVNULL, stderr=subprocess.DEVNULL)))
+                 "-max_len=2048", "-len_control=0", "-artifact_prefix=" + os.path.join(tmp, "artifact%d-" % k), corpus],
+                cwd=core.ROOT, env=envv, stdout=subprocess.DEVNULL, stderr=open(out + ".stderr", "wb"))))
         execs = 0
         for out, pr in procs:
             try:
@@ -163,6 +164,13 @@ def fuzz_campaign(seed, runs, jobs=16):
             except subprocess.TimeoutExpired:
                 pr.kill()
                 stats.inconclusive["fuzz-timeout"] += 1
+                continue
+            viol = os.path.exists(out) and json.load(open(out)).get("violation")
+            if pr.returncode != 0 and not viol:
+                # the target ended on something that is not a violation of the property (an exception of the harness itself,
+                # memory, a signal): a harness error, never silence
+                tail = open(out + ".stderr", "rb").read()[-1500:].decode("utf-8", "replace")
+                raise core.HarnessError("atheris process ended with exit code %s without reporting a violation:\n%s" % (pr.returncode, tail))
             if os.path.exists(out):
                 j = json.load(open(out))
                 execs += j["execs"]
